@@ -32,6 +32,8 @@ MODES = ['inner', 'half-outer', 'full-outer', 'dedup']
 
 
 def gen_cases(tier, seed):
+    # the processors of this property once more with assertions disabled (python -O) against a normal interpreter
+    yield {'family': 'optimized_differential', 'idx': 9 * 10 ** 6, 'seed': seed, 'spill': False, 'big': False, 'proc': 'optimized_differential', 'names': ['a'], 'selector': None}
     n = {'quick': 1400, 'thorough': 30000}[tier]
     # spill cases first: they are the long ones and shards take cases round-robin
     for i in range({'quick': 3, 'thorough': 32}[tier]):
@@ -92,6 +94,9 @@ def match_row(exp, got):
 
 
 def run_case(case):
+    if case['family'] == 'optimized_differential':
+        from vlib import optlab
+        return optlab.as_case_result(['join', 'join_full_outer'], {'target_rows_compared': 0, 'aggregates_compared': 0})
     mode = case['family']
     rng = boot.rng(case['seed'], 'C11', case['idx'])
     r3 = boot.rng(case['seed'], 'C11', 'round4', case['idx'])
